@@ -209,24 +209,53 @@ def _root(e):
     return e.id if isinstance(e, ast.Name) else None
 
 
+def _input_aliases(fn, inputs):
+    """locals that ARE an input object (x = param / x = param.attr / x = param[...]): still the caller's object"""
+    alias = set(inputs)
+    changed = True
+    while changed:
+        changed = False
+        for n in ast.walk(fn):
+            if isinstance(n, ast.Assign) and len(n.targets) == 1 and isinstance(n.targets[0], ast.Name) and isinstance(n.value, (ast.Name, ast.Attribute, ast.Subscript)) \
+                    and _root(n.value) in alias and n.targets[0].id not in alias:
+                alias.add(n.targets[0].id)
+                changed = True
+    return alias
+
+
 def _r5(ctx, pkg):
     nfun = 0
     nwrites = 0
     for f in RENDERERS:
         ctx.saw(f)
-        for qual, fn in _functions(pkg, f):
+        funcs = _functions(pkg, f)
+        byname = {q.split(".")[-1]: fn for q, fn in funcs}
+        pnames = {q: [a.arg for a in fn.args.args + fn.args.kwonlyargs if a.arg not in ("self", "cls")] for q, fn in funcs}
+        # which parameters receive an object from OUTSIDE the module?  Every parameter of a function nobody in the module calls
+        # (entry points); for a helper called only from inside, a parameter is an input only if some call site passes an input
+        # (or an alias of one) -- a helper that fills lists its caller has just created does not touch the network.
+        callsites = {}
+        for q, fn in funcs:
+            for c in ast.walk(fn):
+                if isinstance(c, ast.Call) and isinstance(c.func, ast.Attribute) and isinstance(c.func.value, ast.Name) and c.func.value.id in ("self", "cls") and c.func.attr in byname:
+                    callsites.setdefault(c.func.attr, []).append((q, fn, c))
+        inputs = {q: (set(pnames[q]) if q.split(".")[-1] not in callsites else set()) for q, fn in funcs}
+        changed = True
+        while changed:
+            changed = False
+            for q, fn in funcs:
+                nm = q.split(".")[-1]
+                for cq, cfn, c in callsites.get(nm, []):
+                    al = _input_aliases(cfn, inputs[cq])
+                    ps = pnames[q]
+                    bound = list(zip(ps, c.args)) + [(k.arg, k.value) for k in c.keywords if k.arg in ps]
+                    for p_, a in bound:
+                        if p_ not in inputs[q] and isinstance(a, (ast.Name, ast.Attribute, ast.Subscript)) and _root(a) in al:
+                            inputs[q].add(p_)
+                            changed = True
+        for qual, fn in funcs:
             nfun += 1
-            params = {a.arg for a in fn.args.args + fn.args.kwonlyargs if a.arg not in ("self", "cls")}
-            # locals that ARE an input object (x = param / x = param.attr / x = param[...]): still the caller's object
-            alias = set(params)
-            changed = True
-            while changed:
-                changed = False
-                for n in ast.walk(fn):
-                    if isinstance(n, ast.Assign) and len(n.targets) == 1 and isinstance(n.targets[0], ast.Name) and isinstance(n.value, (ast.Name, ast.Attribute, ast.Subscript)) \
-                            and _root(n.value) in alias and n.targets[0].id not in alias:
-                        alias.add(n.targets[0].id)
-                        changed = True
+            alias = _input_aliases(fn, inputs[qual])
             for n in ast.walk(fn):
                 hit = None
                 if isinstance(n, ast.Call) and isinstance(n.func, ast.Attribute) and n.func.attr in IN_PLACE and _root(n.func.value) in alias:
